@@ -124,6 +124,7 @@ type Exec struct {
 	globalInit map[*Cell]Term
 	vacuityAt  int // index into events after the root's requires were assumed
 	carve      map[string]Term
+	inputs     []string
 }
 
 func (x *Exec) unsupported(format string, a ...any) {
